@@ -147,6 +147,10 @@ pub enum Target {
     Label(String),
     End,
     Done,
+    /// knot with arguments: `-> give(1, x)`; the parameters become temps of the current frame
+    KnotArgs(String, Vec<Expr>),
+    /// a label addressed from another knot: `knot.label` / `knot.stitch.label` (prefix, label)
+    LabelIn(String, String),
 }
 
 impl Target {
@@ -157,6 +161,8 @@ impl Target {
             Target::Label(l) => l.clone(),
             Target::End => "END".into(),
             Target::Done => "DONE".into(),
+            Target::LabelIn(prefix, l) => format!("{prefix}.{l}"),
+            Target::KnotArgs(k, args) => format!("{k}({})", args.iter().map(|a| a.render()).collect::<Vec<_>>().join(", ")),
         }
     }
 }
@@ -204,6 +210,10 @@ pub enum Stmt {
     InlineDivert(Target),
     Tunnel(String),
     TunnelReturn,
+    /// `->-> target`: leave the tunnel and go to `target` instead of back to the caller
+    TunnelReturnTo(Target),
+    /// block-form sequence: `{ stopping: - a... - b... }`, every element a list of statements
+    SeqBlock(SeqKind, Vec<Vec<Stmt>>),
     Thread(String),
     CallStmt(Expr),
     Return(Option<Expr>),
@@ -278,6 +288,26 @@ fn render_stmt(s: &Stmt, ind: usize, level: usize, out: &mut String) {
         Stmt::Divert(t) | Stmt::InlineDivert(t) => writeln!(out, "{pad}-> {}", t.render()).unwrap(),
         Stmt::Tunnel(t) => writeln!(out, "{pad}-> {t} ->").unwrap(),
         Stmt::TunnelReturn => writeln!(out, "{pad}->->").unwrap(),
+        Stmt::TunnelReturnTo(t) => writeln!(out, "{pad}->-> {}", t.render()).unwrap(),
+        Stmt::SeqBlock(kind, elems) => {
+            let word = match kind {
+                SeqKind::Stopping => "stopping",
+                SeqKind::Cycle => "cycle",
+                SeqKind::Once => "once",
+            };
+            writeln!(out, "{pad}{{ {word}:").unwrap();
+            for e in elems {
+                // the dash and the first statement share a line
+                let mut body = String::new();
+                render_stmts(e, ind + 1, level, &mut body);
+                let body = body.trim_start().to_string();
+                write!(out, "{pad}- {body}").unwrap();
+                if body.is_empty() {
+                    out.push('\n');
+                }
+            }
+            writeln!(out, "{pad}}}").unwrap();
+        }
         Stmt::Thread(t) => writeln!(out, "{pad}<- {t}").unwrap(),
         Stmt::CallStmt(e) => writeln!(out, "{pad}~ {}", e.render()).unwrap(),
         Stmt::Return(e) => match e {
